@@ -287,7 +287,7 @@ class StoreSys:
     def content_matches(self, name, served, expected):
         if not isinstance(served, bytes):
             return False
-        if name.endswith(".ics"):
+        if name.lower().endswith(".ics"):
             return ical.same_calendar(served, expected)
         return served == expected
 
@@ -383,7 +383,7 @@ class StoreSys:
             # invariant: no two members share a UID
             uids = {}
             for n, c in a["content"].items():
-                if isinstance(c, bytes) and n.endswith(".ics"):
+                if isinstance(c, bytes) and n.lower().endswith(".ics"):
                     u = ical.first_uid(c)
                     if u is not None:
                         uids.setdefault(u, []).append(n)
@@ -400,10 +400,10 @@ class StoreSys:
                 continue
             _, name, bid, espec = op
             body = B.ALL_BODIES[bid]
-            uid = ical.first_uid(body) if name.endswith(".ics") else None
+            uid = ical.first_uid(body) if name.lower().endswith(".ics") else None
             holders = []
             for n, c in prev[k]["content"].items():
-                if n != name and isinstance(c, bytes) and n.endswith(".ics") and ical.first_uid(c) == uid and uid is not None:
+                if n != name and isinstance(c, bytes) and n.lower().endswith(".ics") and ical.first_uid(c) == uid and uid is not None:
                     holders.append(n)
             res = results[k][0]
             if res == "DuplicateUidError" and not holders:
@@ -417,7 +417,7 @@ class StoreSys:
                     self.violation("C06", k, "refused-conflict-changed-state", "a write refused for a UID conflict changed the store", {"op": op})
             if res == "ok":
                 old = prev[k]["content"].get(name)
-                if isinstance(old, bytes) and name.endswith(".ics"):
+                if isinstance(old, bytes) and name.lower().endswith(".ics"):
                     ou = ical.first_uid(old)
                     if ou is not None and ou != uid:
                         self.uidhist[k][ou] = "changed-uid"
